@@ -36,6 +36,28 @@ def setup_world(I, pool, users=('trader',), extra_pm=None):
     return b
 
 
+def _replay_s1(n_extra, recv_kind):
+    def build(m):
+        fees = (m['protocol_fee'], m['swap_fee'], m['burn_fee'], [m['extra_fee%d' % i] for i in range(n_extra)])
+        pool = pool_json('p1', ['uA', 'uB'], [6, 6], [m['reserve_x'], m['reserve_y']], 'constant_product', fees)
+        recv = {'none': None, 'valid': '@alice', 'invalid': 'not-an-address'}[recv_kind]
+        steps = [
+            {'op': 'set_pool', 'pool': pool},
+            {'op': 'mint', 'to': 'pool_manager', 'funds': [coin_j('uA', m['pm_balance_A']), coin_j('uB', m['pm_balance_B'])]},
+            {'op': 'mint', 'to': 'sink', 'funds': [coin_j('uA', m['supply_A'] - m['pm_balance_A']), coin_j('uB', m['supply_B'] - m['pm_balance_B'])]},
+            {'op': 'mint', 'to': 'trader', 'funds': [coin_j('uA', m['offer'])]},
+            {'op': 'execute', 'contract': 'pool_manager', 'sender': 'trader', 'funds': [coin_j('uA', m['offer'])],
+             'msg': {'swap': {'ask_asset_denom': 'uB', 'belief_price': None, 'max_slippage': dec_j(m['max_slippage_atomics']),
+                              'receiver': recv, 'pool_identifier': 'p1'}}},
+        ]
+        steps = [s for s in steps if s['op'] != 'mint' or any(int(c['amount']) > 0 for c in s['funds'])]
+        for s in steps:
+            if s['op'] == 'mint':
+                s['funds'] = [c for c in s['funds'] if int(c['amount']) > 0]
+        return {'setup': {}, 'steps': steps}, len(steps) - 1
+    return generic_replay(build)
+
+
 def _ob_s1(n_extra, recv_kind):
     def s1(I):
         I.set_hint(HINT)
@@ -64,6 +86,9 @@ def _ob_s1(n_extra, recv_kind):
             # rejected: nothing changed (chain rollback) -- checked structurally by C20
             return
         I.cover('ok', HINT)
+        I.observe('status', 'ok')
+        observe_pool(I, 'p1')
+        observe_bank(I, b, [(PM, 'uA'), (PM, 'uB'), ('trader', 'uA'), ('trader', 'uB'), (recv_addr, 'uB'), ('fee_collector', 'uB')], ['uA', 'uB'])
         x2, y2 = reserves_of(get_pool(I, 'p1'))
         gross = I.ctx.fdiv(simp(y * o), x + o)
         f_sw = I.ctx.fdiv(simp(gross * s), E18)
@@ -102,4 +127,4 @@ for _n, _rk in ((0, 'none'), (1, 'valid'), (0, 'invalid'), (2, 'none')):
                          'receiver (validated receiver or sender) gets gross - all fees; fee collector gets floor(gross*protocol); burn leaves supply; '
                          'swap/extra fees stay; no other balance changes; only bank messages',
                bounds='reserves/offer [1,2^128), fees via real is_valid (%d extra), receiver %s; pool-manager balances >= reserves' % (_n, _rk),
-               covers=['ok'])(_ob_s1(_n, _rk))
+               covers=['ok'], replay=_replay_s1(_n, _rk))(_ob_s1(_n, _rk))
